@@ -478,3 +478,32 @@ Theorem C15_update_unoccurring_nonvacuous :
   /\ field_at (d_nodes ParseEx.d) UpdateLineEx.v1 (f_id ParseEx.fo) = Some (DOpt (Some (SvInt 7%Z))).
 Proof. split; [exact UpdateLineEx.ex_unnamed|exact UpdateLineEx.ex_update_line]. Qed.
 Print Assumptions C15_update_unoccurring_nonvacuous.
+
+(** * Round 3: the class of the round trip stated without the parser's functions *)
+
+(** ROUND TRIP AS AN EQUALITY, class on the derive input and the value only: [ok_nodes] (attribute combinations of the
+    matches-level round trip, scalars that print and parse back), [fits_all] (arithmetic: the value range of the generated
+    argument admits the length of every printed group; a counter's range is empty), required fields mentioned.
+    [accepted_nodes] is DERIVED: a scalar that parses back lies in the language of the field's value parser
+    ([scalar_accepts]); [range_admits] is what [verify_num_args] computes. *)
+Theorem C15_roundtrip_parse_class : forall d bin vs argv,
+  opt_struct d -> Forall takes_ok (fields_of (d_nodes d)) -> ok_nodes (d_nodes d) vs ->
+  fits_all (d_nodes d) vs -> required_mentioned (d_nodes d) vs ->
+  valid (with_bin (derive_cmd d) bin) = true -> print d vs = Some argv ->
+  derived_parse d (bin :: argv) = PValue vs.
+Proof. exact roundtrip_parse_class. Qed.
+Print Assumptions C15_roundtrip_parse_class.
+
+(** Non-vacuity: [fits_all] holds for both example values; it is needed: [Option<Vec<String>> = Some([])] prints to a bare
+    [--xx] that the command rejects (InvalidValue), and does not satisfy [fits]. *)
+Theorem C15_roundtrip_parse_class_nonvacuous :
+  fits_all (d_nodes PostEx.d) PostEx.v /\ fits_all (d_nodes ParseEx.d) ParseEx.v
+  /\ Forall takes_ok (fields_of (d_nodes ParseEx.d)) /\ required_mentioned (d_nodes ParseEx.d) ParseEx.v
+  /\ print FitsEx.dv [DOptVec (Some [])] = Some [[45;45;120;120]]
+  /\ derived_parse FitsEx.dv [b_prog; [45;45;120;120]] = PError EInvalidValue
+  /\ ~ fits FitsEx.fov (DOptVec (Some [])).
+Proof.
+  split; [exact PostEx.ex_fits|]. destruct PostEx.ex_fits2 as (H1 & H2 & H3). split; [exact H1|]. split; [exact H2|].
+  split; [exact H3|exact FitsEx.ex_unfit].
+Qed.
+Print Assumptions C15_roundtrip_parse_class_nonvacuous.
